@@ -23,7 +23,63 @@ def handler(case):
     if case["kind"] == "kernel":
         h = acct.kernel_handler(case)
         return dict(ops=h["ops"], impl=h["impl"], viols=h["v10"], nontrivial=h["sig"], tag="kernel")
+    if case["kind"] == "mc":
+        return mc_case(case)
     return e2e(case)
+
+
+def mc_case(case):
+    """run_monte_carlo: every saved Monte Carlo file (systems, networks, load points, EV parks) holds, for every iteration,
+    the number that iteration produced in memory"""
+    import contextlib, io
+    from relsad.simulation import Simulation
+    from relsad.Time import Time, TimeStamp, TimeUnit
+    from . import net
+    viols = []
+    ps = net.build(dict(case["spec"], exact=False, nprof=case["n_inc"]))
+    for l in ps.lines:
+        l.fail_rate_per_year = case["rate"]
+        l.repair_time_dist = net.FixedDist(case["rep"])
+    sim = Simulation(ps, random_seed=case["seed"])
+    rets = []
+    orig = sim.run_iteration
+    def wrapped(*a, **k):
+        r = orig(*a, **k)
+        rets.append(r)
+        return r
+    sim.run_iteration = wrapped
+    d = acct.tmpdir("c10_mc")
+    with contextlib.redirect_stdout(io.StringIO()):
+        sim.run_monte_carlo(iterations=case["iters"], start_time=TimeStamp(), stop_time=TimeStamp(hour=case["n_inc"]), time_step=Time(1, TimeUnit.HOUR),
+                            time_unit=TimeUnit.HOUR, save_dir=d, save_iterations=[], debug=True)
+    files = {}
+    for dp, _, fns in os.walk(os.path.join(d, "monte_carlo")):
+        for fn in fns:
+            files[(os.path.basename(dp), fn[:-4])] = os.path.join(dp, fn)
+    ncmp = 0
+    for r in rets:
+        for name, attrs in r.items():
+            for attr, byit in attrs.items():
+                p = files.get((name, attr))
+                if p is None:
+                    viols.append(("mc.file-missing", f"no Monte Carlo file for {name}/{attr}"))
+                    continue
+                col = acct.read_csv_col(p)
+                for it, v in byit.items():
+                    ncmp += 1
+                    if float(it) not in col:
+                        viols.append(("mc.file-row", f"monte_carlo/.../{name}/{attr}.csv has no row for iteration {it} (rows {sorted(col)}), in-memory value {v}"))
+                    else:
+                        try:
+                            fv, mv = float(col[float(it)]), float(v.get_hours() if hasattr(v, "get_hours") else v)
+                        except (TypeError, ValueError):
+                            continue
+                        if not close(fv, mv, 1e-9):
+                            viols.append(("mc.file-value", f"monte_carlo/.../{name}/{attr}.csv iteration {it}: file {fv}, memory {mv}"))
+        if len(viols) > 8:
+            break
+    nev = len(ps.ev_parks)
+    return dict(ops=[], impl=[], viols=viols[:4], nontrivial=("mc", nev, bool(case["spec"].get("mg")), min(ncmp // 100, 20)), tag=f"mc:ev={nev}")
 
 
 def e2e(case):
@@ -94,21 +150,35 @@ def e2e(case):
     return dict(ops=[], impl=[], viols=viols[:4], nontrivial=("e2e",) + nt if times else None, tag=f"e2e:logged={len(times)}")
 
 
+def gen_mc(rng, n):
+    from . import net
+    cases = []
+    for _ in range(n):
+        spec = net.rand_feeder_spec(rng, max_lines=4, ctrl="manual", allow_tie=False, allow_mg=rng.random() < 0.6)
+        for fd in spec["feeders"]:       # EV parks on buses that are not the last bus of the system, sometimes several
+            nb = len(fd["parent"])
+            fd["ev"] = {str(k): {"hours": list(range(24)), "table": [str(rng.choice([2, 3, 5])) for _ in range(24)], "v2g": rng.random() < 0.6}
+                        for k in rng.sample(range(nb), rng.choice([1, 1, min(2, nb)]))}
+        cases.append({"kind": "mc", "spec": spec, "n_inc": 10, "iters": rng.choice([3, 4]), "seed": rng.randint(0, 10 ** 6),
+                      "rate": rng.choice([800.0, 2000.0]), "rep": rng.choice([2.0, 4.0])})
+    return cases
+
+
 def run(res):
     rng = random.Random(res.seed * 3571 + 29)
     nk, ne = (120, 25) if res.tier == "quick" else (2500, 300)
     res.rule = ("kernel: op sequences (set/add/trafo shed/LP shed/log/index) on 1-5 real Bus objects with customer counts 0..500 (incl. all zero), "
                 "indices over sub-ranges (network) and the whole list (system), elapsed 0 included; end-to-end: random built feeders (1-2 feeders, ties) "
-                "with injected line and transformer faults, logged histories and CSV files vs definitions. non-trivial = distinct signature of "
+                "with injected line and transformer faults, logged histories and CSV files vs definitions; Monte Carlo runs (3-4 iterations, EV parks, microgrids): every saved Monte Carlo file vs the numbers each iteration returned in memory. non-trivial = distinct signature of "
                 "(stack>0, interruption in progress, zero customers, index kinds)")
-    cases = acct.gen_kernel(rng, nk) + acct.gen_e2e(rng, ne)
+    cases = acct.gen_kernel(rng, nk) + acct.gen_e2e(rng, ne) + gen_mc(rng, 3 if res.tier == "quick" else 40)
     run_cases(res, cases, handler)
 
 
 def search(res):
     rng = random.Random(res.seed * 977 + 1)
     found = []
-    for case in acct.gen_kernel(rng, 600) + acct.gen_e2e(rng, 60):
+    for case in acct.gen_kernel(rng, 600) + acct.gen_e2e(rng, 60) + gen_mc(rng, 10):
         h = handler(case)
         for key, what in h["viols"]:
             found.append({"key": key, "what": what, "case": case})
